@@ -1,4 +1,5 @@
 import Chartparse.Proofs.Hint
+import Chartparse.Proofs.ChainProofs
 /-! Property theorems of C11 (statements only; helper lemmas live in `Proofs/`). -/
 namespace Chartparse.Props.C11
 open Chartparse Chartparse.Tempo
@@ -44,5 +45,55 @@ theorem no_internal :
     ∀ (ticks : List Nat) (tick : Int) (start : Nat) (w : String),
     indexOfProximal ticks tick start ≠ .error (.internal w) :=
   @Chartparse.Tempo.no_internal
+
+/-- C11: a hint not beyond the governing event gives exactly the un-hinted answer (timestamp and index) -/
+theorem C11_hint_invariant :
+    ∀ (res : Int) (evs : List BpmEv) (hs : (evs.map (·.tick)).Pairwise (· < ·))
+    (tick : Int) (h : Nat) (hh : h < (before tick (evs.map (·.tick))).length),
+    tsAt res evs tick h = tsAt res evs tick 0 :=
+  @Chartparse.Tempo.tsAt_hint_invariant
+
+/-- C11: a hint beyond the governing event is rejected with ValueError -/
+theorem C11_hint_reject :
+    ∀ (res : Int) (evs : List BpmEv) (hs : (evs.map (·.tick)).Pairwise (· < ·))
+    (tick : Int) (h : Nat) (hh : (before tick (evs.map (·.tick))).length ≤ h),
+    tsAt res evs tick h = .error .valueError :=
+  @Chartparse.Tempo.tsAt_hint_reject
+
+/-- C11: a successful hinted query is the un-hinted query -/
+theorem C11_hint_indep :
+    ∀ (res : Int) (evs : List BpmEv) (hs : (evs.map (·.tick)).Pairwise (· < ·))
+    (tick : Int) (h : Nat) (r : Int × Nat) (hok : tsAt res evs tick h = .ok r),
+    tsAt res evs tick 0 = .ok r :=
+  @Chartparse.Tempo.tsAt_hint_indep
+
+/-- every failure of the query is a ValueError -/
+theorem C11_errors_are_ValueError :
+    ∀ (res : Int) (evs : List BpmEv) (tick : Int) (h : Nat) (e : PyErr)
+    (herr : tsAt res evs tick h = .error e),
+    e = .valueError :=
+  @Chartparse.Tempo.tsAt_err
+
+/-- **C11 (any line order)**: for the body lines of one kind in any order whatsoever — sorted, partially sorted,
+    shuffled, with duplicates — building the events either raises ValueError or returns, for every line, exactly the
+    timestamp and governing index of the un-hinted query for its tick -/
+theorem C11_chain_any_order :
+    ∀ (res : Int) (evs : List BpmEv) (hs : (evs.map (·.tick)).Pairwise (· < ·))
+    (ticks : List Nat) (h : Nat),
+    chain res evs ticks h = .error .valueError ∨
+    ∃ out, chain res evs ticks h = .ok out ∧ out.length = ticks.length ∧
+      ∀ i (hi : i < ticks.length) (ho : i < out.length), tsAt res evs (ticks[i] : Int) 0 = .ok out[i] :=
+  @Chartparse.Tempo.chain_any_order_ts
+
+/-- a linked map has strictly increasing ticks -/
+theorem sorted_of_linked :
+    ∀ (res : Nat) (evs : List BpmEv) (hl : Linked res evs),
+    (evs.map (·.tick)).Pairwise (· < ·) :=
+  @Chartparse.Tempo.sorted_of_linked
+
+/-- non-vacuity: hints 0..1 give the same answer at tick 900 on a 3-event map, hint 2 is rejected -/
+example : (tsAt 100 [⟨0, 120, 0⟩, ⟨800, 60, 4000000⟩, ⟨1200, 90, 8000000⟩] 900 1).toOption =
+    (tsAt 100 [⟨0, 120, 0⟩, ⟨800, 60, 4000000⟩, ⟨1200, 90, 8000000⟩] 900 0).toOption ∧
+    (tsAt 100 [⟨0, 120, 0⟩, ⟨800, 60, 4000000⟩, ⟨1200, 90, 8000000⟩] 900 2).toOption = none := by decide +kernel
 
 end Chartparse.Props.C11
